@@ -44,6 +44,7 @@
 #include <semaphore.h>
 #include <sys/wait.h>
 #include <signal.h>
+#include <sys/prctl.h>
 #include "hwloc/shmem.h"
 
 /* ------------------------------------------------------------------ */
@@ -117,6 +118,7 @@ static long os_rc[OC_N]; static int os_errno[OC_N];
 static int os_mempol_mode; static hwloc_bitmap_t os_mempol_mask;
 static int os_page_status; static int os_cpu; static unsigned long os_maxnodes = 64;
 static unsigned long os_nrcpus = 256;   /* sched_getaffinity needs a buffer of at least that many bits */
+static char os_stat[1100]; static int os_stat_len = -1;   /* scripted content of /proc/<tid>/stat, -1: the real file */
 static int os_pm_unsupported;            /* MPOL_PREFERRED_MANY answered EINVAL (old kernel) */
 
 static long raw_syscall6(long nr, long a, long b, long c, long d, long e, long f)
@@ -167,6 +169,24 @@ int pthread_getaffinity_np(pthread_t th, size_t sz, cpu_set_t *mask)
   memset(mask, 0, sz);
   for (i = 0; i < 8 * sz; i++) if (hwloc_bitmap_isset(os_affproc ? os_affproc : os_aff, i)) ((unsigned long *)mask)[i / 64] |= 1UL << (i % 64);
   return 0;
+}
+/* hwloc_linux_get_tid_last_cpu_location reads /proc/<tid>/stat through openat(): recorded, and answered from the
+ * script when "os stat <hex>" gave a content (a pipe holding it) */
+int openat(int dirfd, const char *path, int flags, ...)
+{
+  mode_t mode = 0; unsigned long tid = 0; char tail = 0;
+  if (flags & (O_CREAT | 020000000 /* O_TMPFILE bit */)) { va_list ap; va_start(ap, flags); mode = va_arg(ap, mode_t); va_end(ap); }
+  if (os_intercept && path && sscanf(path, "/proc/%lu/stat%c", &tid, &tail) == 1) {
+    tr_add(" stat(%s)", (pid_t)tid == getpid() ? "self" : "other");
+    if (os_stat_len >= 0) {
+      int p[2];
+      if (raw_syscall6(SYS_pipe2, (long)p, 0, 0, 0, 0, 0) < 0) return -1;
+      if (os_stat_len > 0 && raw_syscall6(SYS_write, p[1], (long)os_stat, os_stat_len, 0, 0, 0) < 0) {}
+      raw_syscall6(SYS_close, p[1], 0, 0, 0, 0, 0);
+      return p[0];
+    }
+  }
+  return (int)raw_syscall6(SYS_openat, dirfd, (long)path, flags, mode, 0, 0);
 }
 int sched_getcpu(void)
 {
@@ -257,7 +277,7 @@ static void *rh_alloc_membind(hwloc_topology_t t, size_t len, hwloc_const_nodese
 static int rh_free(hwloc_topology_t t, void *a, size_t len) { free(a); return 0; }
 
 static int hooks_mode;
-static pid_t hwv_child; static int hwv_child_fd = -1;
+static pid_t hwv_child; static int hwv_child_fd = -1, hwv_child_rfd = -1;
 static struct hwloc_binding_hooks saved_hooks; static struct hwloc_topology *saved_hooks_of;
 static void restore_installed_hooks(struct hwloc_topology *t)
 {
@@ -489,8 +509,13 @@ int main(void)
           if (pipe(p2c) || pipe(c2p)) { printf("ot-error pipe\n"); continue; }
           fflush(stdout);
           child = fork();
-          if (!child) { char x; close(p2c[1]); close(c2p[0]); while (read(p2c[0], &x, 1) == 1 && x != 'q') if (write(c2p[1], &x, 1) != 1) break; _exit(0); }
-          close(p2c[0]); close(c2p[1]); hwv_child = child; hwv_child_fd = p2c[1];
+          if (!child) { char x; close(p2c[1]); close(c2p[0]);
+            while (read(p2c[0], &x, 1) == 1 && x != 'q') {
+              if (x == 'n') { char nm[16]; if (read(p2c[0], nm, 16) == 16) { nm[15] = 0; prctl(PR_SET_NAME, nm); } }   /* rename myself */
+              if (write(c2p[1], &x, 1) != 1) break;
+            }
+            _exit(0); }
+          close(p2c[0]); close(c2p[1]); hwv_child = child; hwv_child_fd = p2c[1]; hwv_child_rfd = c2p[0];
         }
         target = child; errno = 0;
         rs = hwloc_set_proc_cpubind(t, child, b, fl); es = errno;
@@ -508,6 +533,27 @@ int main(void)
       printf(" set_rc=%d set_errno=%s get_rc=%d get=", rs, rs < 0 ? hwv_errno_class(es) : "0", rg); hwv_pset(stdout, g);
       fputs(" raw=", stdout); hwv_pset(stdout, raw); printf(" last_rc=%d last=", rl); hwv_pset(stdout, last); fputc('\n', stdout);
       hwloc_bitmap_free(b); hwloc_bitmap_free(g); hwloc_bitmap_free(raw); hwloc_bitmap_free(last); continue;
+    }
+    if (!strcmp(cmd, "taskname")) { /* <main|worker|child> <hex of the name, at most 15 bytes>: prctl(PR_SET_NAME) in that task */
+      char nm[16]; size_t k, n2 = strlen(a2) / 2; unsigned v; memset(nm, 0, sizeof(nm));
+      if (!strcmp(a2, "-")) n2 = 0;
+      for (k = 0; k < n2 && k < 15; k++) { sscanf(a2 + 2 * k, "%2x", &v); nm[k] = (char)v; }
+      if (!strcmp(a1, "main")) prctl(PR_SET_NAME, nm);
+      else if (!strcmp(a1, "worker")) { park_start(); pthread_setname_np(park_thread, nm); }
+      else if (hwv_child > 0) { char c = 'n'; if (write(hwv_child_fd, &c, 1) == 1 && write(hwv_child_fd, nm, 16) == 16 && read(hwv_child_rfd, &c, 1) == 1) {} }
+      continue;
+    }
+    if (!strcmp(cmd, "lcl")) { /* <main|mainproc|worker|child> <flags>: last cpu location of that task */
+      hwloc_bitmap_t last = hwloc_bitmap_alloc(); int fl = (int)strtoul(a2, NULL, 0), rl = -2, e;
+      if (!t || !loaded) { printf("lcl-error\n"); continue; }
+      errno = 0;
+      if (!strcmp(a1, "main")) rl = hwloc_get_last_cpu_location(t, last, fl);
+      else if (!strcmp(a1, "mainproc")) rl = hwloc_get_proc_last_cpu_location(t, getpid(), last, fl);
+      else if (!strcmp(a1, "worker")) { park_start(); rl = hwloc_get_proc_last_cpu_location(t, park_tid, last, fl | HWLOC_CPUBIND_THREAD); }
+      else if (hwv_child > 0) rl = hwloc_get_proc_last_cpu_location(t, hwv_child, last, fl);
+      e = errno;
+      printf("C target=%s flags=%d rc=%d errno=%s last=", a1, fl, rl, rl < 0 ? hwv_errno_class(e) : "0"); hwv_pset(stdout, last); fputc('\n', stdout);
+      hwloc_bitmap_free(last); continue;
     }
     if (!strcmp(cmd, "foreigndup")) { /* <cpu>: bind through a synthetic (foreign) topology, its duplicate and a duplicate of that */
       hwloc_topology_t f, d1 = NULL, d2 = NULL, which[3]; const char *names[3] = { "orig", "dup", "dupdup" }; int k;
@@ -569,6 +615,11 @@ int main(void)
       else if (!strcmp(a1, "ret")) { int c; for (c = 0; c < OC_N; c++) if (!strcmp(a2, "all") || !strcmp(a2, oc_names[c])) { os_rc[c] = atol(a3); os_errno[c] = errno_of_class(a4); } }
       else if (!strcmp(a1, "mempol")) { hwloc_bitmap_t b = hwv_parse_set(a3); os_mempol_mode = atoi(a2); if (b) { hwloc_bitmap_copy(os_mempol_mask, b); hwloc_bitmap_free(b); } }
       else if (!strcmp(a1, "pages")) os_page_status = atoi(a2);
+      else if (!strcmp(a1, "stat")) { /* hex of the file content, "-" = the real /proc, "empty" = zero bytes */
+        if (!strcmp(a2, "-")) os_stat_len = -1; else if (!strcmp(a2, "empty")) os_stat_len = 0;
+        else { size_t k, n2 = strlen(a2) / 2; unsigned v; if (n2 > sizeof(os_stat) - 1) n2 = sizeof(os_stat) - 1;
+          for (k = 0; k < n2; k++) { sscanf(a2 + 2 * k, "%2x", &v); os_stat[k] = (char)v; } os_stat_len = (int)n2; }
+      }
       else if (!strcmp(a1, "cpu")) os_cpu = atoi(a2);
       else if (!strcmp(a1, "maxnodes")) os_maxnodes = strtoul(a2, NULL, 0);
       else if (!strcmp(a1, "nrcpus")) os_nrcpus = strtoul(a2, NULL, 0);
